@@ -1,7 +1,7 @@
 #!/bin/bash
 # verify_seed.sh <ID> <a|b>: confirm a seeded change in its scratch worktree:
 #   demo passes on pristine, fails with the change; existing suite passes with the change.
-ID="$1"; X="$2"; WT=/tmp/seedwt/$ID; OUT=/tmp/seedout/$ID/$X
+ID="$1"; X="$2"; WT=${SEEDWT:-/tmp/seedwt}/$ID; OUT=${SEEDOUT:-/tmp/seedout}/$ID/$X
 [ -f "$OUT/patch.diff" ] || { echo "no patch $OUT"; exit 2; }
 cd "$WT" || exit 2
 git checkout -q -- . ; git clean -fdq -e target
